@@ -16,6 +16,7 @@ CONSTANTS
     UpgraderSem = "drop"
     Reloads = {}
     IOFaults = FALSE
+    CallerWait = "forever"
     UpgradeRecheck = "full"
     MaxCalls = 1
     Kinds = {"auth", "update", "remove"}
